@@ -30,11 +30,14 @@ Section Fib.
     induction cs as [|c cs IHcs]; constructor; [apply IH | exact IHcs].
   Qed.
 
-  (** heap order and weight *)
+  (** heap order, weight, and the degrees of the children: a node of degree [d] has children
+      of degrees [d-1, …, 0] in ring order from the child pointer (without decrease-key the trees
+      of a Fibonacci heap are binomial trees) *)
   Inductive fgood : ftree -> Prop :=
   | fgood_node k v d cs :
       Forall (fun c => (cmp k (ft_key K V c) <= 0)%Z) cs -> Forall fgood cs ->
       2 ^ d <= S (length (fentries cs)) ->
+      map (ft_degree K V) cs = rev (seq 0 d) ->
       fgood (FNode k v d cs).
 
   Lemma ft_entries_key t : In (ft_entry K V t) (ft_entries t).
@@ -43,7 +46,7 @@ Section Fib.
   Lemma fgood_root_first t : fgood t -> forall e, In e (ft_entries t) -> (cmp (ft_key K V t) (fst e) <= 0)%Z.
   Proof.
     induction t as [k v d cs IH] using ftree_ind'. intros Hh e He.
-    inversion Hh as [k' v' d' cs' Hk Hc Hw]; subst. simpl in *.
+    inversion Hh as [k' v' d' cs' Hk Hc Hw Hdeg]; subst. simpl in *.
     destruct He as [<-|He]; [simpl; rewrite (cmp_refl cmp TO); lia|].
     apply in_flat_map in He as (c & Hc1 & Hc2).
     rewrite Forall_forall in IH, Hk, Hc.
@@ -68,10 +71,15 @@ Section Fib.
     ft_degree K V c = ft_degree K V p -> fgood (f_link K V c p).
   Proof.
     intros Hc Hp Hle Hd. pose proof (fgood_weight c Hc) as Hwc.
-    destruct p as [k v d cs]. inversion Hp; subst. simpl in *.
-    constructor; [constructor; auto | constructor; auto |].
-    unfold fentries in *. simpl. rewrite app_length. rewrite Hd in Hwc. lia.
+    destruct p as [k v d cs]. inversion Hp; subst. simpl in Hd, Hle, Hwc.
+    unfold f_link. constructor; [constructor; auto | constructor; auto | |].
+    - unfold fentries in *. simpl. rewrite app_length. rewrite Hd in Hwc. lia.
+    - rewrite seq_S, rev_app_distr. simpl. congruence.
   Qed.
+
+  Lemma fgood_child_degrees t :
+    fgood t -> map (ft_degree K V) (ft_children K V t) = rev (seq 0 (ft_degree K V t)).
+  Proof. intros H. inversion H; subst. simpl. assumption. Qed.
 
   Lemma ft_exists_spec p t : ft_exists K V p t = existsb p (ft_entries t).
   Proof.
@@ -529,6 +537,15 @@ Section Fib.
 
   Lemma fgood_leaf k v : fgood (FNode k v 0 []).
   Proof. constructor; simpl; auto. Qed.
+
+  (** consequence checked by the package's [verify()]: a child's degree is below its parent's *)
+  Lemma fgood_child_degree_lt t c :
+    fgood t -> In c (ft_children K V t) -> ft_degree K V c < ft_degree K V t.
+  Proof.
+    intros Ht Hc. pose proof (fgood_child_degrees t Ht) as Hd.
+    apply (in_map (ft_degree K V)) in Hc. rewrite Hd in Hc.
+    apply in_rev, in_seq in Hc. lia.
+  Qed.
 
   Lemma f_insert_ok k v h :
     finv h -> finv (f_insert K V cmp k v h) /\ Permutation (fbag (f_insert K V cmp k v h)) ((k, v) :: fbag h).
